@@ -5,7 +5,7 @@ import ast
 
 from .common import facts, parent
 from .c01 import check_selectors
-from .shapes import Arr, Dim, DimVal, ListOf, ONE, SCALAR, ShapeError, ShapeInterp, Undecided
+from .shapes import Arr, Dim, DimVal, ListOf, ONE, Opaque, SCALAR, ShapeError, ShapeInterp, Undecided
 
 EXPLANATION = (
     "Two small abstract interpreters over the numpy code of linear.py / utils.py plus def-use rules. (R2.1 shape "
@@ -73,6 +73,8 @@ def check_shapes(ctx):
                 inst = "%s.predict is shape safe and returns (m,) for %s" % (cname, tag)
                 try:
                     r = si.run(fn, {"x": Arr((m, d))}, _fields(si))
+                    if isinstance(r, Opaque):
+                        raise Undecided(r.why)
                     ok = isinstance(r, Arr) and len(r.shape) == 1 and r.shape[0] == m
                     ctx.check(ok, "R2.1", inst, fn.node, fn, "returns shape %r instead of (m,)" % (r,),
                               construct="def %s.predict [%s]" % (fn.cls.name, tag))
@@ -95,6 +97,9 @@ def check_shapes(ctx):
                     si.run(fn, env_f(si), flds)
                     d = si.dim("d")
                     want = {"beta": (d,), "Xty": (d,), "A": (d, d), "A_inv": (d, d)}
+                    for k in want:
+                        if isinstance(flds[k], Opaque):
+                            raise Undecided("self.%s: %s" % (k, flds[k].why))
                     bad = {k: flds[k] for k, v in want.items() if not (isinstance(flds[k], Arr) and
                                                                       tuple(flds[k].shape) == v)}
                     ctx.check(not bad, "R2.1", inst, fn.node, fn, "fields with wrong shapes: %s" % bad,
@@ -286,7 +291,162 @@ def check_incremental(ctx):
                   "reads %s" % sorted(reads), construct="def %s.predict (reads)" % cname)
 
 
+# ------------------------------------------------------------------------------------------------ R2.5
+FRESH_CALLS = {"np.array", "np.copy", "np.dot", "np.matmul", "np.sqrt", "np.sum", "np.multiply", "np.zeros",
+               "np.ones", "np.empty", "np.concatenate", "np.hstack", "np.vstack", "np.einsum", "deepcopy",
+               "copy.deepcopy", "np.linalg.inv", "np.atleast_2d_copy"}
+VIEW_CALLS = {"np.asarray", "np.squeeze", "np.ravel", "np.reshape", "np.transpose", "np.atleast_2d", "np.atleast_1d",
+              "np.asanyarray", "np.ascontiguousarray", "np.expand_dims", "np.broadcast_to", "np.swapaxes"}
+VIEW_METHODS = {"reshape", "ravel", "squeeze", "transpose", "view", "swapaxes"}
+INPLACE_METHODS = {"sort", "fill", "resize", "put", "itemset", "partition", "setfield", "clip_inplace"}
+
+
+def _false_kw(call, name):
+    for k in call.keywords:
+        if k.arg == name:
+            return not (isinstance(k.value, ast.Constant) and k.value.value is True)
+    return False
+
+
+def _may_alias(e, aliases):
+    """may the value of e share memory with one of the names in `aliases`?"""
+    if isinstance(e, ast.Name):
+        return e.id in aliases
+    if isinstance(e, ast.Attribute):
+        return e.attr in ("T", "real", "flat") and _may_alias(e.value, aliases)
+    if isinstance(e, ast.Subscript):
+        return _may_alias(e.value, aliases)        # basic slices are views; fancy indexing copies (over-approximated)
+    if isinstance(e, ast.IfExp):
+        return _may_alias(e.body, aliases) or _may_alias(e.orelse, aliases)
+    if isinstance(e, ast.Call):
+        f = ast.unparse(e.func)
+        if f in VIEW_CALLS:
+            return bool(e.args) and _may_alias(e.args[0], aliases)
+        if f == "np.array":
+            return _false_kw(e, "copy") and bool(e.args) and _may_alias(e.args[0], aliases)
+        if isinstance(e.func, ast.Attribute):
+            if e.func.attr in VIEW_METHODS:
+                return _may_alias(e.func.value, aliases)
+            if e.func.attr == "astype":
+                return _false_kw(e, "copy") and _may_alias(e.func.value, aliases)
+        return False
+    return False
+
+
+def _inplace_scalers(prog):
+    """StandardScaler(...) constructions of the linear module that do not copy their operand"""
+    out = []
+    mod = prog.modules["linear"]
+    for n in ast.walk(mod.tree):
+        if isinstance(n, ast.Call) and ast.unparse(n.func).split(".")[-1] == "StandardScaler" and _false_kw(n, "copy"):
+            out.append(n)
+    return out
+
+
+def _param_mutations(prog, cls, fn, param, inplace_scaler, depth=0, seen=None):
+    """statements of fn (and of the self-methods it passes the value to) that may modify the array bound to param"""
+    seen = seen if seen is not None else set()
+    if (fn.qualname, param) in seen or depth > 3:
+        return []
+    seen.add((fn.qualname, param))
+    aliases = {param}
+    found = []
+
+    def visit(stmts):
+        for st in stmts:
+            if isinstance(st, (ast.If, ast.While)):
+                scan_expr(st.test, st)
+                visit(st.body)
+                visit(st.orelse)
+                continue
+            if isinstance(st, ast.For):
+                scan_expr(st.iter, st)
+                visit(st.body)
+                visit(st.orelse)
+                continue
+            if isinstance(st, ast.With):
+                visit(st.body)
+                continue
+            if isinstance(st, ast.Try):
+                visit(st.body)
+                for h in st.handlers:
+                    visit(h.body)
+                visit(st.orelse)
+                visit(st.finalbody)
+                continue
+            scan_expr(st, st)
+            if isinstance(st, ast.AugAssign):
+                t = st.target
+                if _may_alias(t.value if isinstance(t, ast.Subscript) else t, aliases):
+                    found.append((st, fn, "augmented assignment works in place"))
+            elif isinstance(st, ast.Assign):
+                for t in st.targets:
+                    if isinstance(t, ast.Subscript) and _may_alias(t.value, aliases):
+                        found.append((st, fn, "element assignment"))
+                for t in st.targets:
+                    if isinstance(t, ast.Name):
+                        if _may_alias(st.value, aliases) or _alias_through_call(st.value):
+                            aliases.add(t.id)
+                        else:
+                            aliases.discard(t.id)
+
+    def _alias_through_call(e):
+        # x = self.helper(x): the helper may return its argument
+        return isinstance(e, ast.Call) and isinstance(e.func, ast.Attribute) and \
+            isinstance(e.func.value, ast.Name) and e.func.value.id == "self" and \
+            any(_may_alias(a, aliases) for a in e.args) and cls.resolve(e.func.attr) is not None
+
+    def scan_expr(node, st):
+        for c in ast.walk(node):
+            if not isinstance(c, ast.Call):
+                continue
+            for k in c.keywords:
+                if k.arg == "out" and _may_alias(k.value, aliases):
+                    found.append((st, fn, "out= argument"))
+            if isinstance(c.func, ast.Attribute):
+                if c.func.attr in INPLACE_METHODS and _may_alias(c.func.value, aliases):
+                    found.append((st, fn, "in-place method .%s" % c.func.attr))
+                if c.func.attr in ("transform", "fit_transform", "inverse_transform", "partial_fit", "fit") and \
+                        "scaler" in ast.unparse(c.func.value) and inplace_scaler and c.args and \
+                        _may_alias(c.args[0], aliases):
+                    found.append((st, fn, "scaler built with copy=False works on its operand in place"))
+                if isinstance(c.func.value, ast.Name) and c.func.value.id == "self":
+                    callee = cls.resolve(c.func.attr)
+                    if callee is not None:
+                        for i, a in enumerate(c.args):
+                            if _may_alias(a, aliases) and i + 1 < len(callee.params):
+                                found.extend(_param_mutations(prog, cls, callee, callee.params[i + 1], inplace_scaler,
+                                                              depth + 1, seen))
+    visit(fn.node.body)
+    return found
+
+
+def check_query_unmodified(ctx):
+    """The query matrix is handed to every arm's model in turn; a model that changes it in place (e.g. a scaler
+    working without a copy on an alias of x) makes the later arms score different contexts."""
+    prog = ctx.prog
+    inplace = _inplace_scalers(prog)
+    n = 0
+    for cname in MODEL_CLASSES:
+        cls = prog.cls(cname)
+        f = cls.resolve("predict")
+        ctx.saw_fn(f)
+        if len(f.params) < 2:
+            ctx.undecided("R2.5", "%s.predict has no query parameter" % cname, f.node, f)
+            continue
+        n += 1
+        bad = _param_mutations(prog, cls, f, f.params[1], bool(inplace))
+        inst = "%s.predict leaves the query matrix it is given unmodified" % cname
+        if not bad:
+            ctx.ok("R2.5", inst, f.node, f, construct="def %s.predict (query matrix)" % cname)
+        for st, fn, why in bad:
+            ctx.violate("R2.5", inst, st, fn, "%s on a value that may share memory with `%s`, which "
+                        "_Linear._vectorized_predict_context hands to the next arm's model as well" % (why, f.params[1]))
+    ctx.floor("R2.5", "model predict functions", n, 3)
+
+
 def check(ctx):
+    ctx.rule("R2.5", "a model's predict does not modify the query matrix shared by all arms")
     ctx.rule("R2.1", "shape safety for all (d, m) in {1, >1}^2; no two-sided broadcast; predict returns (m,)")
     ctx.rule("R2.2", "initial model: A = lambda*I, A_inv = I/lambda, X'y = 0, beta = 0")
     ctx.rule("R2.3", "accumulate / derive structure, writers, documented reads")
@@ -295,3 +455,4 @@ def check(ctx):
     check_initial_model(ctx)
     check_incremental(ctx)
     check_selectors(ctx, "R2.4")
+    check_query_unmodified(ctx)
